@@ -156,7 +156,7 @@ TXTS = ["a", "b", "ab", "B", "x y", "Zed", "10a", "b ", " c", "ba"]
 class FileSpec:
     """A typed random file: column kinds num | numE | txt | txtE; header-name row optional."""
 
-    def __init__(self, rng, *, max_rows=8, named_header=None, allow_blank=True, allow_ragged=True):
+    def __init__(self, rng, *, max_rows=8, named_header=None, allow_blank=True, allow_ragged=True, blank_p=0.12):
         self.ncols = rng.randint(1, 4)
         self.kinds = [rng.choice(["num", "num", "numE", "txt", "txt", "txtE"]) for _ in range(self.ncols)]
         self.named = rng.random() < 0.5 if named_header is None else named_header
@@ -167,7 +167,7 @@ class FileSpec:
             rows.append(list(self.names))
         self.minlen = self.ncols
         for _ in range(nrows):
-            if allow_blank and rng.random() < 0.12:
+            if allow_blank and rng.random() < blank_p:
                 rows.append([])
                 continue
             row = [self.cell(rng, kd) for kd in self.kinds]
